@@ -514,6 +514,11 @@ class MultiFit(FitBase):
                 return True
         return False
 
+    def _unfreeze_nodes_after_failed_fit(self):
+        # the uncertainty nodes are frozen in the member fits (the multi-fit has no parametric model of its own)
+        for _fit in self._fits:
+            _fit._unfreeze_nodes_after_failed_fit()
+
     def _pre_fit_iteration(self, first_fit=False):
         for _fit in self._fits:
             _fit._pre_fit_iteration(first_fit)
